@@ -78,13 +78,23 @@ func newRecEvaluator() *recEvaluator {
 // reused variable does): where a pod lives in memory says nothing about what it contains
 var reusedPod corev1.Pod
 var evalCount int
+var lastEvalPod *corev1.Pod
 
 func (e *recEvaluator) Eval(lv api.LevelVersion, p *corev1.Pod) ([]RevResult, []policy.CheckResult) {
 	*e.log = (*e.log)[:0]
 	evalCount++
 	if (evalCount/64)%2 == 0 { // runs of 64 consecutive evaluations (which span several pods) through the one object, then 64 on the pods themselves
+		if lastEvalPod != nil && lastEvalPod != p {
+			// the object held the previous pod a moment ago, and was evaluated holding it
+			reusedPod = *lastEvalPod.DeepCopy()
+			e.ev.EvaluatePod(lv, &reusedPod.ObjectMeta, &reusedPod.Spec)
+			*e.log = (*e.log)[:0]
+		}
+		lastEvalPod = p
 		reusedPod = *p.DeepCopy()
 		p = &reusedPod
+	} else {
+		lastEvalPod = p
 	}
 	rs := e.ev.EvaluatePod(lv, &p.ObjectMeta, &p.Spec)
 	out := make([]RevResult, len(*e.log))
